@@ -240,10 +240,10 @@ private:
         for (const CharT* it = begin; it != end; ++it)
         {
             CharT c = *it;
-            if (c == quote_char)
+            if (c == quote_char || (c == quote_escape_char && quote_escape_char != quote_char))
             {
                 sink.push_back(quote_escape_char); 
-                sink.push_back(quote_char);
+                sink.push_back(c);
             }
             else
             {
@@ -1315,7 +1315,9 @@ private:
         bool quote = false;
         if (quote_style_ == quote_style_kind::all || quote_style_ == quote_style_kind::nonnumeric ||
             (quote_style_ == quote_style_kind::minimal &&
-            (std::char_traits<CharT>::find(s, length, field_delimiter_) != nullptr || std::char_traits<CharT>::find(s, length, quote_char_) != nullptr)))
+            (std::char_traits<CharT>::find(s, length, field_delimiter_) != nullptr || std::char_traits<CharT>::find(s, length, quote_char_) != nullptr ||
+             std::char_traits<CharT>::find(s, length, quote_escape_char_) != nullptr ||
+             std::char_traits<CharT>::find(s, length, CharT('\n')) != nullptr || std::char_traits<CharT>::find(s, length, CharT('\r')) != nullptr)))
         {
             quote = true;
             str.push_back(quote_char_);
